@@ -16,9 +16,24 @@
     evaluates): an `ndl.ndl` part with ZERO events raises `IOError`
     (`ndl_call_empty_part_raises`, `chain_empty_ndl_part_raises`), so the
     success theorems carry "every `ndl.ndl` part has an event" (`hne`);
+  * every statement about `ndl.ndl` carries `FileEvents` for the events of the
+    `ndl.ndl` parts (`hfile`: every event has ≥ 1 cue and ≥ 1 outcome — what an
+    event file can hold; `ndl.ndl` reads a path or the spool file of a
+    generator, where an empty field comes back as the name `""`; C01 header).
+    Call forms (harness/impl.py `op_chain`: `form` ∈ path, pathobj, list,
+    generator): an `ndl.ndl` part is the call on a path / path object /
+    generator; a `dict_ndl` part (`dictNdl` on the list, NO normalisation) is
+    the call on an in-memory list or generator for ANY events, and on a path /
+    path object when the part's events are `FileEvents` (then the file reads
+    back as the list itself).  The theorems that compare with ONE `ndl.ndl`
+    call over the whole file (`chain_eq_single_call`, `chain_split_irrelevant`)
+    need `FileEvents` of the whole file;
   * chunking arguments: `CfgOK` = `2 ≤ events_per_temporary_file < 2³²`,
-    `1 ≤ n_outcomes_per_job`, OpenMP: `#outcome labels + n_outcomes_per_job < 2³²`
-    (outside: `ValueError` / `OverflowError` / `ZeroDivisionError`, see C01);
+    `1 ≤ n_outcomes_per_job`, OpenMP: `n_outcomes_per_job < 2³²` and
+    `⌈#outcome labels / n_outcomes_per_job⌉ · n_outcomes_per_job < 2³²` (no
+    wrap-around of the part bounds; outside the first three: `ValueError` /
+    `OverflowError` / `ZeroDivisionError`, see C01 `ndl_chunk_args_raise`,
+    `ndl_continue_chunk_args_raise`);
   * `weights=` with DUPLICATE labels is outside the model (it reads a label at
     its first position, Python's `OrderedDict` at its last): `ndl_continue`
     carries `Nodup` on the given labels; in chains it is an invariant;
@@ -62,12 +77,16 @@
     requires; `dict_ndl` alone also takes a per-cue dict: `dict_continue`).
   * partial: Widrow-Hoff chains (`wh.wh`) are not part of `chainRun`
     (treated in C08).
-  * partial: the label ORDER `ndl.ndl` produces for new names (a Python `set`
-    difference, hash order) is modelled as first occurrence; the theorems
-    read results through their labels, so they do not depend on it
-    (`abs_extend` holds for any order; from scratch the independence is a
-    theorem, C01 `ndl_label_order_irrelevant`; for the continued call the
-    generic statement `ndlCore_spec` holds for any merged label lists).
+  * the label ORDER `ndl.ndl` produces for new names (`list(set(cues) -
+    set(old_cues))`, ndl.py:175-178: hash order) is first occurrence in
+    `ndlModel (some w)`; that the weights, read through the labels, do not
+    depend on it — nor on the order of the ids inside the events — is
+    `ndl_continue_label_order_irrelevant` (one continued call, any permutation
+    of the appended labels; from scratch: C01 `ndl_label_order_irrelevant`).
+    partial: in `chainRun` the order stays fixed from call to call (the chain
+    theorems read the final state through its labels; a chain whose
+    intermediate matrices carry the appended labels in other orders is not
+    modelled as a chain, only call by call through the theorem above).
 -/
 import PyndlProofs.Continue
 import PyndlProofs.Dict
@@ -75,6 +94,8 @@ import PyndlProofs.NdlContinue
 import PyndlProofs.DictArray
 import PyndlProofs.Chain
 import PyndlProofs.NdlCall
+import PyndlProofs.FileEvents
+import PyndlProofs.LabelOrder
 import PyndlModel.Generated
 
 set_option linter.unusedVariables false
@@ -146,9 +167,12 @@ theorem abs_extend (w : LW R) (cuesNew outsNew : List String) (o c : String) :
     `hndc`, `hndo`: the given labels are duplicate free.  The PROOF does not use
     them (the model reads a label at its first position, consistently); they
     delimit where model = code: `ndl.ndl` builds `OrderedDict((label, ii) …)`
-    (ndl.py:183-184), which keeps the LAST position of a repeated label. -/
+    (ndl.py:183-184), which keeps the LAST position of a repeated label.
+    `hfile`: the events are what an event file can hold (likewise unused by the
+    proof; without it the code sees `es.map fileNorm`). -/
 theorem ndl_continue (cfg : NdlCfg) (alpha β₁ β₂ lam : R)
     (w : LW R) (hndc : w.cues.Nodup) (hndo : w.outcomes.Nodup) (es es' : List (Event String String))
+    (hfile : FileEvents es)
     (hcfg : CfgOK cfg (mergedOutcomes w es).length)
     (hp : applyPolicyAll cfg.policy es = some es') (hfit : Fits32With w es) :
     ∃ r, ndlModel Generated.pyMagic Generated.pyVersion cfg alpha β₁ β₂ lam (some w) es = .ok (r, es.length) ∧
@@ -159,7 +183,7 @@ theorem ndl_continue (cfg : NdlCfg) (alpha β₁ β₂ lam : R)
     events, the function the correspondence run evaluates): every NON-EMPTY part -/
 theorem ndl_call_continue (cfg : NdlCfg) (alpha β₁ β₂ lam : R)
     (w : LW R) (hndc : w.cues.Nodup) (hndo : w.outcomes.Nodup)
-    (es es' : List (Event String String)) (hne : es ≠ [])
+    (es es' : List (Event String String)) (hne : es ≠ []) (hfile : FileEvents es)
     (hcfg : CfgOK cfg (mergedOutcomes w es).length)
     (hp : applyPolicyAll cfg.policy es = some es') (hfit : Fits32With w es) :
     ∃ r, ndlCall Generated.pyMagic Generated.pyVersion cfg alpha β₁ β₂ lam (some w) es = .ok (r, es.length) ∧
@@ -176,7 +200,20 @@ example :
         (fun o c => (⟨["x"], ["a", "b"], #[10, 10]⟩ : LW ℤ).get o c)
         [⟨["b"], ["x", "y"]⟩, ⟨["a", "c"], ["y"]⟩] o c :=
   ndl_call_continue ⟨.error, .openmp, 1, 2⟩ 1 2 3 5 ⟨["x"], ["a", "b"], #[10, 10]⟩ (by decide) (by decide)
-    [⟨["b"], ["x", "y"]⟩, ⟨["a", "c"], ["y"]⟩] _ (by decide) (by decide +kernel) (by decide +kernel)
+    [⟨["b"], ["x", "y"]⟩, ⟨["a", "c"], ["y"]⟩] _ (by decide) (by decide) (by decide +kernel) (by decide +kernel)
+    ⟨by decide +kernel, by decide +kernel, by decide +kernel, by decide +kernel⟩
+
+/-- `ndl_continue` (the model without the zero-event rule) applied: threading, two
+    outcomes per job, policy `True` removing a repeated cue; the given weights
+    have a cue `q` the events never mention (its column comes back unchanged) -/
+example :
+    ∃ r, ndlModel Generated.pyMagic Generated.pyVersion ⟨.dedup, .threading, 2, 2⟩ (1 : ℤ) 2 3 5
+        (some ⟨["x"], ["q", "a"], #[4, 10]⟩) [⟨["a", "a"], ["x", "y"]⟩, ⟨["c"], [""]⟩, ⟨["a"], ["y"]⟩] = .ok (r, 3) ∧
+      ∀ o c, r.get o c = rwLearn (fun _ => (1 : ℤ)) 2 3 5
+        (fun o c => (⟨["x"], ["q", "a"], #[4, 10]⟩ : LW ℤ).get o c)
+        [⟨["a"], ["x", "y"]⟩, ⟨["c"], [""]⟩, ⟨["a"], ["y"]⟩] o c :=
+  ndl_continue ⟨.dedup, .threading, 2, 2⟩ 1 2 3 5 ⟨["x"], ["q", "a"], #[4, 10]⟩ (by decide) (by decide)
+    [⟨["a", "a"], ["x", "y"]⟩, ⟨["c"], [""]⟩, ⟨["a"], ["y"]⟩] _ (by decide) (by decide +kernel) (by decide +kernel)
     ⟨by decide +kernel, by decide +kernel, by decide +kernel, by decide +kernel⟩
 
 /-- … and the result is not trivial: row `x` moved, row `y` is new -/
@@ -186,11 +223,69 @@ example :
      | .ok (w, k) => some (w.outcomes, w.cues, w.vals, k) | .error _ => none)
       = some (["x", "y"], ["a", "b", "c"], #[-20, 0, -30,  10, 10, 10], 2) := by decide +kernel
 
+/-- **with `weights=`, the order in which `ndl.ndl` appends the NEW labels and the
+    order of the ids inside the events are irrelevant.**  The code appends
+    `list(set(cues) - set(old_cues))` — a `set` difference, i.e. hash order —
+    where `ndlModel (some w)` appends the new names in order of first occurrence.
+    `ndlModelContWith` takes the appended lists `newCues`, `newOuts` and a
+    per-event reordering as parameters (`ndlModel (some w)` is one instance:
+    `ndlModelContWith_first_occurrence`).  For ANY permutations of the new names
+    and any `reorder`, under the hypotheses of `ndl_continue`, both succeed with
+    the same count, the generalised result is labelled `w.cues ++ newCues` /
+    `w.outcomes ++ newOuts`, and the two denote the same weight at EVERY pair of
+    names. -/
+theorem ndl_continue_label_order_irrelevant (reorder : Event Nat Nat → Event Nat Nat)
+    (hre : ∀ e, (reorder e).cues ~ e.cues ∧ (reorder e).outcomes ~ e.outcomes)
+    (cfg : NdlCfg) (alpha β₁ β₂ lam : R)
+    (w : LW R) (hndc : w.cues.Nodup) (hndo : w.outcomes.Nodup) (es es' : List (Event String String))
+    (hfile : FileEvents es) (newCues newOuts : List String)
+    (hpc : newCues ~ (countNames es).1.filter (fun c => !w.cues.contains c))
+    (hpo : newOuts ~ (countNames es).2.filter (fun o => !w.outcomes.contains o))
+    (hcfg : CfgOK cfg (mergedOutcomes w es).length)
+    (hp : applyPolicyAll cfg.policy es = some es') (hfit : Fits32With w es) :
+    ∃ r r₀, ndlModelContWith reorder Generated.pyMagic Generated.pyVersion cfg alpha β₁ β₂ lam w newCues newOuts es
+        = .ok (r, es.length) ∧
+      ndlModel Generated.pyMagic Generated.pyVersion cfg alpha β₁ β₂ lam (some w) es = .ok (r₀, es.length) ∧
+      r.cues = w.cues ++ newCues ∧ r.outcomes = w.outcomes ++ newOuts ∧
+      ∀ o c, r.get o c = r₀.get o c :=
+  ndlModelContWith_order_irrelevant reorder hre _ _ (by decide) (by decide) cfg alpha β₁ β₂ lam w es es'
+    newCues newOuts hpc hpo hcfg hp hfit
+
+/-- `ndl_continue_label_order_irrelevant` ITSELF applied: given labels `x` / `a, b`;
+    the events bring the new cues `c, d` and the new outcomes `y, z`; they are
+    appended as `d, c` and `z, y`, the ids of every event are reversed -/
+example :
+    ∃ r r₀, ndlModelContWith (fun e => ⟨e.cues.reverse, e.outcomes.reverse⟩) Generated.pyMagic Generated.pyVersion
+        ⟨.error, .openmp, 1, 2⟩ (1 : ℤ) 2 3 5 ⟨["x"], ["a", "b"], #[10, 10]⟩ ["d", "c"] ["z", "y"]
+        [⟨["b"], ["x", "y"]⟩, ⟨["a", "c", "d"], ["y", "z"]⟩] = .ok (r, 2) ∧
+      ndlModel Generated.pyMagic Generated.pyVersion ⟨.error, .openmp, 1, 2⟩ (1 : ℤ) 2 3 5
+        (some ⟨["x"], ["a", "b"], #[10, 10]⟩) [⟨["b"], ["x", "y"]⟩, ⟨["a", "c", "d"], ["y", "z"]⟩] = .ok (r₀, 2) ∧
+      r.cues = ["a", "b"] ++ ["d", "c"] ∧ r.outcomes = ["x"] ++ ["z", "y"] ∧ ∀ o c, r.get o c = r₀.get o c :=
+  ndl_continue_label_order_irrelevant (fun e => ⟨e.cues.reverse, e.outcomes.reverse⟩)
+    (fun e => ⟨List.reverse_perm _, List.reverse_perm _⟩) ⟨.error, .openmp, 1, 2⟩ 1 2 3 5
+    ⟨["x"], ["a", "b"], #[10, 10]⟩ (by decide) (by decide) [⟨["b"], ["x", "y"]⟩, ⟨["a", "c", "d"], ["y", "z"]⟩]
+    [⟨["b"], ["x", "y"]⟩, ⟨["a", "c", "d"], ["y", "z"]⟩]
+    (by decide) ["d", "c"] ["z", "y"] (by decide +kernel) (by decide +kernel) (by decide +kernel)
+    (by decide +kernel) ⟨by decide +kernel, by decide +kernel, by decide +kernel, by decide +kernel⟩
+
+/-- … the arrays differ (columns / rows in the other order), the weights do not -/
+example :
+    (match ndlModelContWith (fun e => ⟨e.cues.reverse, e.outcomes.reverse⟩) Generated.pyMagic Generated.pyVersion
+        ⟨.error, .openmp, 1, 2⟩ (1 : ℤ) 2 3 5 ⟨["x"], ["a", "b"], #[10, 10]⟩ ["d", "c"] ["z", "y"]
+        [⟨["b"], ["x", "y"]⟩, ⟨["a", "c", "d"], ["y", "z"]⟩] with
+      | .ok (w, _) => some (w.outcomes, w.cues, w.get "y" "c", w.get "z" "d", w.get "x" "a") | .error _ => none) =
+    (match ndlModel Generated.pyMagic Generated.pyVersion ⟨.error, .openmp, 1, 2⟩ (1 : ℤ) 2 3 5
+        (some ⟨["x"], ["a", "b"], #[10, 10]⟩) [⟨["b"], ["x", "y"]⟩, ⟨["a", "c", "d"], ["y", "z"]⟩] with
+      | .ok (w, _) => some (["x", "z", "y"], ["a", "b", "d", "c"], w.get "y" "c", w.get "z" "d", w.get "x" "a")
+      | .error _ => none) := by decide +kernel
+
 /-- **an EMPTY part is not a no-op for `ndl.ndl`** (outside the property's splits,
     which have non-empty parts; recorded because `dict_ndl` does return its input
     there): continuing from weights with at least one outcome on an event file
     with zero events raises `IOError` with either method (whenever the argument
-    checks pass). -/
+    checks pass).  (One of three wrappers of `ndlCall_nil_raises`: C01
+    `ndl_call_empty_openmp`, C15 `pipeline_ndl_empty_raises`; that the rule is what
+    the kernel entry points do: C01 `ndl_zero_events_rule`.) -/
 theorem ndl_call_empty_part_raises (cfg : NdlCfg) (hper : 2 ≤ cfg.perFile) (hperU : cfg.perFile < 4294967296)
     (hjt : cfg.method = .threading → 1 ≤ cfg.perJob) (hjo : cfg.method = .openmp → cfg.perJob < 4294967296)
     (alpha β₁ β₂ lam : R) (w : LW R) (hw : w.outcomes ≠ []) :
@@ -199,14 +294,15 @@ theorem ndl_call_empty_part_raises (cfg : NdlCfg) (hper : 2 ≤ cfg.perFile) (hp
 
 /-- **two chained `ndl.ndl` calls = one pass over the concatenation** (possibly
     different methods and chunk sizes in the two calls, later part with new
-    cues/outcomes).  Preconditions, all on the INPUTS: both parts non-empty and
-    accepted by the policy of their call, legal chunking arguments w.r.t. the
+    cues/outcomes).  Preconditions, all on the INPUTS: both parts non-empty, what
+    an event file can hold (`hfx`, `hfy`) and accepted by the policy of their call, legal chunking arguments w.r.t. the
     number of distinct outcomes of `xs ++ ys`, and `Fits32 (xs ++ ys)`.
     (Replaces a VACUOUS earlier version whose hypothesis `∀ w : LW R,
     Fits32With w ys` no `ys` satisfies — take `w` with 2³² labels; the size
     condition for the intermediate matrix is now derived, as in `chain_any_length`.) -/
 theorem ndl_chain_two (cfg₁ cfg₂ : NdlCfg) (alpha β₁ β₂ lam : R)
     (xs xs' ys ys' : List (Event String String)) (hxne : xs ≠ []) (hyne : ys ≠ [])
+    (hfx : FileEvents xs) (hfy : FileEvents ys)
     (hc₁ : CfgOK cfg₁ (countNames (xs ++ ys)).2.length) (hc₂ : CfgOK cfg₂ (countNames (xs ++ ys)).2.length)
     (hx : applyPolicyAll cfg₁.policy xs = some xs') (hy : applyPolicyAll cfg₂.policy ys = some ys')
     (fxy : Fits32 (xs ++ ys)) :
@@ -215,18 +311,20 @@ theorem ndl_chain_two (cfg₁ cfg₂ : NdlCfg) (alpha β₁ β₂ lam : R)
       ∀ o c, w₂.get o c = rwLearn (fun _ => alpha) β₁ β₂ lam (fun _ _ => (0 : R)) (xs' ++ ys') o c :=
   ndlCall_chain_two _ _ (by decide) (by decide) cfg₁ cfg₂ alpha β₁ β₂ lam xs xs' ys ys' hxne hyne hc₁ hc₂ hx hy fxy
 
-/-- non-vacuity of `ndl_chain_two`: threading then OpenMP, the second part brings
-    a new cue and a new outcome; the theorem itself is applied -/
+/-- non-vacuity of `ndl_chain_two`: threading then OpenMP, the first part has an
+    event whose outcome field is empty in the file (the outcome `""`), the second
+    part brings a new cue and a new outcome; the theorem itself is applied -/
 example :
     ∃ w₁ w₂, ndlCall Generated.pyMagic Generated.pyVersion ⟨.error, .threading, 2, 2⟩ (1 : ℤ) 2 3 5 none
-        [⟨["a", "b"], ["x"]⟩, ⟨["b"], ["x"]⟩, ⟨["a"], []⟩] = .ok (w₁, 3) ∧
+        [⟨["a", "b"], ["x"]⟩, ⟨["b"], ["x"]⟩, ⟨["a"], [""]⟩] = .ok (w₁, 3) ∧
       ndlCall Generated.pyMagic Generated.pyVersion ⟨.dedup, .openmp, 1, 3⟩ (1 : ℤ) 2 3 5 (some w₁)
         [⟨["c", "c", "a"], ["y", "x"]⟩] = .ok (w₂, 1) ∧
       ∀ o c, w₂.get o c = rwLearn (fun _ => (1 : ℤ)) 2 3 5 (fun _ _ => 0)
-        ([⟨["a", "b"], ["x"]⟩, ⟨["b"], ["x"]⟩, ⟨["a"], []⟩] ++ [⟨["c", "a"], ["y", "x"]⟩]) o c :=
+        ([⟨["a", "b"], ["x"]⟩, ⟨["b"], ["x"]⟩, ⟨["a"], [""]⟩] ++ [⟨["c", "a"], ["y", "x"]⟩]) o c :=
   ndl_chain_two ⟨.error, .threading, 2, 2⟩ ⟨.dedup, .openmp, 1, 3⟩ 1 2 3 5
-    [⟨["a", "b"], ["x"]⟩, ⟨["b"], ["x"]⟩, ⟨["a"], []⟩] _ [⟨["c", "c", "a"], ["y", "x"]⟩] _
-    (by decide) (by decide) (by decide +kernel) (by decide +kernel) (by decide +kernel) (by decide +kernel)
+    [⟨["a", "b"], ["x"]⟩, ⟨["b"], ["x"]⟩, ⟨["a"], [""]⟩] _ [⟨["c", "c", "a"], ["y", "x"]⟩] _
+    (by decide) (by decide) (by decide) (by decide)
+    (by decide +kernel) (by decide +kernel) (by decide +kernel) (by decide +kernel)
     ⟨by decide +kernel, by decide +kernel, by decide +kernel, by decide +kernel⟩
 
 /-- (definitional — NOT a property theorem) **inputs are not modified** — in the model every learner is a pure function
@@ -274,11 +372,16 @@ theorem chain_policy_uniform (p : DupPolicy) (parts : List Part) (h : ∀ pt ∈
       (otherwise the real call raises `ValueError`); `es'` is the concatenation
       of the policy-processed parts;
     * `hl`: every `ndl.ndl` part has `2 ≤ events_per_temporary_file < 2³²`,
-      `1 ≤ n_outcomes_per_job` and, with OpenMP, (number of distinct outcomes of
-      the whole file) + `n_outcomes_per_job < 2³²` (`CfgOK`; outside the code
+      `1 ≤ n_outcomes_per_job` and, with OpenMP, `n_outcomes_per_job < 2³²` and
+      ⌈(number of distinct outcomes of the whole file) / `n_outcomes_per_job`⌉ ·
+      `n_outcomes_per_job < 2³²` (`CfgOK`; outside the first three the code
       raises `ValueError` / `OverflowError` / `ZeroDivisionError`);
     * `hne`: every `ndl.ndl` part has at least one event (on an empty part the
       real call raises `IOError`: `chain_empty_ndl_part_raises`);
+    * `hfile`: the events of every `ndl.ndl` part are what an event file can hold
+      (≥ 1 cue, ≥ 1 outcome each; the `ndl.ndl` parts read a path / generator).
+      The `dict_ndl` parts are `dict_ndl` on the in-memory list (any events),
+      and also `dict_ndl` on a path when their events are `FileEvents` too;
     * `hfit`: the whole file fits the 32-bit chunk format (events, distinct
       cues, distinct outcomes, cues/outcomes per event < 2^32).
     Conclusion: the chain succeeds, and the weight function its final state
@@ -288,6 +391,7 @@ theorem chain_any_length (alpha β₁ β₂ lam : R) (parts : List Part) (es' : 
     (hp : chainPolicy parts = some es')
     (hl : ∀ pt ∈ parts, pt.1.ChunksOK (countNames (allEvents parts)).2.length)
     (hne : ∀ pt ∈ parts, pt.1.isNdl = true → pt.2 ≠ [])
+    (hfile : ∀ pt ∈ parts, pt.1.isNdl = true → FileEvents pt.2)
     (hfit : Fits32 (allEvents parts)) :
     ∃ s, chainRun Generated.pyMagic Generated.pyVersion alpha β₁ β₂ lam none parts = .ok s ∧
       ∀ o c, stateGet s o c = rwLearn (fun _ => alpha) β₁ β₂ lam (fun _ _ => (0 : R)) es' o c :=
@@ -304,6 +408,7 @@ theorem chain_any_length_from (C O : List String) (hC : (dedupKeepFirst C).lengt
     (es' : List (Event String String)) (hp : chainPolicy parts = some es')
     (hl : ∀ pt ∈ parts, pt.1.ChunksOK (dedupKeepFirst O).length)
     (hne : ∀ pt ∈ parts, pt.1.isNdl = true → pt.2 ≠ [])
+    (hfile : ∀ pt ∈ parts, pt.1.isNdl = true → FileEvents pt.2)
     (hfit : ∀ pt ∈ parts, PartFits C O pt.2) :
     ∃ s', chainRun Generated.pyMagic Generated.pyVersion alpha β₁ β₂ lam s parts = .ok s' ∧
       ∀ o c, stateGet s' o c = rwLearn (fun _ => alpha) β₁ β₂ lam (stateGet s) es' o c :=
@@ -312,7 +417,11 @@ theorem chain_any_length_from (C O : List String) (hC : (dedupKeepFirst C).lengt
 /-- **the chain equals ONE call over the whole file** — of `ndl.ndl` (any
     configuration `cfg` with legal chunking arguments; the CALL, so the file
     must have an event: `hall`) and of `dict_ndl` — when all parts and the single
-    call use the duplicate policy `p`.  Preconditions as in `chain_any_length`;
+    call use the duplicate policy `p`.  `hfile`: the WHOLE file is what an event
+    file can hold — the single `ndl.ndl` call reads a path/generator, the single
+    `dict_ndl` call is then the call on the list and on a path alike (without
+    `hfile` the two single calls differ in the real code: the outcome `""`).
+    Other preconditions as in `chain_any_length`;
     that the single call accepts the whole file follows from the parts being
     accepted (`chain_policy_uniform`). -/
 theorem chain_eq_single_call (alpha β₁ β₂ lam : R) (parts : List Part) (p : DupPolicy)
@@ -320,6 +429,7 @@ theorem chain_eq_single_call (alpha β₁ β₂ lam : R) (parts : List Part) (p 
     (es' : List (Event String String)) (hp : chainPolicy parts = some es')
     (hl : ∀ pt ∈ parts, pt.1.ChunksOK (countNames (allEvents parts)).2.length)
     (hne : ∀ pt ∈ parts, pt.1.isNdl = true → pt.2 ≠ [])
+    (hfile : FileEvents (allEvents parts))
     (hfit : Fits32 (allEvents parts)) (hall : allEvents parts ≠ [])
     (cfg : NdlCfg) (hcp : cfg.policy = p) (hcfg : CfgOK cfg (countNames (allEvents parts)).2.length) :
     ∃ s w W, chainRun Generated.pyMagic Generated.pyVersion alpha β₁ β₂ lam none parts = .ok s ∧
@@ -332,7 +442,9 @@ theorem chain_eq_single_call (alpha β₁ β₂ lam : R) (parts : List Part) (p 
 
 /-- **the split does not matter**: two splits of the same file — different
     numbers of parts, cut positions and learners per part —, all with the
-    duplicate policy `p` which accepts the file, end in the same weight function -/
+    duplicate policy `p` which accepts the file, end in the same weight function.
+    `hfile`: the file is what an event file can hold (a part may be run by
+    `ndl.ndl` in one split and by `dict_ndl` on the list in the other). -/
 theorem chain_split_irrelevant (alpha β₁ β₂ lam : R) (parts₁ parts₂ : List Part) (p : DupPolicy)
     (hpol₁ : ∀ pt ∈ parts₁, pt.1.policy = p) (hpol₂ : ∀ pt ∈ parts₂, pt.1.policy = p)
     (hsame : allEvents parts₁ = allEvents parts₂)
@@ -341,6 +453,7 @@ theorem chain_split_irrelevant (alpha β₁ β₂ lam : R) (parts₁ parts₂ : 
     (hl₂ : ∀ pt ∈ parts₂, pt.1.ChunksOK (countNames (allEvents parts₁)).2.length)
     (hne₁ : ∀ pt ∈ parts₁, pt.1.isNdl = true → pt.2 ≠ [])
     (hne₂ : ∀ pt ∈ parts₂, pt.1.isNdl = true → pt.2 ≠ [])
+    (hfile : FileEvents (allEvents parts₁))
     (hfit : Fits32 (allEvents parts₁)) :
     ∃ s₁ s₂, chainRun Generated.pyMagic Generated.pyVersion alpha β₁ β₂ lam none parts₁ = .ok s₁ ∧
       chainRun Generated.pyMagic Generated.pyVersion alpha β₁ β₂ lam none parts₂ = .ok s₂ ∧
@@ -379,6 +492,25 @@ def exParts' : List Part :=
   [ (.ndl ⟨.error, .threading, 1, 3⟩, [⟨["a", "b"], ["x"]⟩, ⟨["b"], ["x", "y"]⟩, ⟨["a", "c"], ["y"]⟩, ⟨["c", "b"], ["x"]⟩]),
     (.dict .error false, [⟨["a"], ["y"]⟩, ⟨["d"], ["y", "z"]⟩]) ]
 
+/-- three `ndl.ndl` parts with three different duplicate policies (`True`,
+    `None`, `False`), methods and chunk sizes; an event with an empty outcome
+    field (`""`), repeated cues and outcomes -/
+def exParts3 : List Part :=
+  [ (.ndl ⟨.dedup, .openmp, 1, 2⟩, [⟨["a", "b", "a"], ["x"]⟩, ⟨["b"], ["x", "y"]⟩, ⟨["a"], [""]⟩]),
+    (.ndl ⟨.error, .threading, 2, 2⟩, [⟨["c", "b"], ["x"]⟩, ⟨["a"], ["z"]⟩, ⟨["d"], ["y", "z"]⟩]),
+    (.ndl ⟨.keep, .openmp, 2, 2⟩, [⟨["c", "c"], ["x", "x"]⟩, ⟨["e"], ["z"]⟩, ⟨["d", "a"], ["u"]⟩, ⟨["a"], ["x"]⟩]) ]
+
+/-- `chain_any_length` ITSELF applied (every hypothesis instantiated): the chain
+    of `exParts3` is the specification on the parts processed by their OWN
+    policies -/
+example :
+    ∃ s, chainRun Generated.pyMagic Generated.pyVersion (1 : ℤ) 2 3 5 none exParts3 = .ok s ∧
+      ∀ o c, stateGet s o c = rwLearn (fun _ => (1 : ℤ)) 2 3 5 (fun _ _ => (0 : ℤ))
+        [⟨["a", "b"], ["x"]⟩, ⟨["b"], ["x", "y"]⟩, ⟨["a"], [""]⟩, ⟨["c", "b"], ["x"]⟩, ⟨["a"], ["z"]⟩,
+         ⟨["d"], ["y", "z"]⟩, ⟨["c", "c"], ["x", "x"]⟩, ⟨["e"], ["z"]⟩, ⟨["d", "a"], ["u"]⟩, ⟨["a"], ["x"]⟩] o c :=
+  chain_any_length 1 2 3 5 exParts3 _ (by decide +kernel) (by decide +kernel) (by decide) (by decide)
+    ⟨by decide +kernel, by decide +kernel, by decide +kernel, by decide +kernel⟩
+
 def showState : Option (ChainState ℤ) → Option (Bool × List String × List String × Array ℤ)
   | some (.matrix w) => some (true, w.outcomes, w.cues, w.vals)
   | _ => none
@@ -413,7 +545,7 @@ example :
       dictNdl .error (fun _ => (1 : ℤ)) 2 3 5 [] (allEvents exParts) = some W ∧
       ∀ o c, stateGet s o c = w.get o c ∧ stateGet s o c = wdAbs W o c :=
   chain_eq_single_call 1 2 3 5 exParts .error (by decide) (allEvents exParts) (by decide +kernel)
-    (by decide +kernel) (by decide)
+    (by decide +kernel) (by decide) (by decide)
     ⟨by decide +kernel, by decide +kernel, by decide +kernel, by decide +kernel⟩ (by decide)
     ⟨.error, .openmp, 1, 2⟩ rfl (by decide +kernel)
 
@@ -424,6 +556,7 @@ example :
       ∀ o c, stateGet s₁ o c = stateGet s₂ o c :=
   chain_split_irrelevant 1 2 3 5 exParts exParts' .error (by decide) (by decide) (by decide +kernel)
     (allEvents exParts) (by decide +kernel) (by decide +kernel) (by decide +kernel) (by decide) (by decide)
+    (by decide)
     ⟨by decide +kernel, by decide +kernel, by decide +kernel, by decide +kernel⟩
 
 /-- non-vacuity of `chain_any_length_from`: the last three parts of `exParts`
@@ -437,7 +570,7 @@ example :
   chain_any_length_from ["a", "b", "c", "d"] ["x", "y", "z"] (by decide +kernel) (by decide +kernel) 1 2 3 5
     (exParts.drop 1) (some (.matrix ⟨["x"], ["a", "b"], #[10, 10]⟩))
     ⟨by decide, by decide, by decide, by decide⟩ (allEvents (exParts.drop 1)) (by decide +kernel)
-    (by decide +kernel) (by decide)
+    (by decide +kernel) (by decide) (by decide)
     (fun pt hpt => by
       simp only [exParts, List.drop_succ_cons, List.drop_zero, List.mem_cons, List.not_mem_nil, or_false] at hpt
       rcases hpt with rfl | rfl | rfl <;> exact ⟨by decide +kernel, by decide +kernel, by decide +kernel⟩)
